@@ -543,6 +543,14 @@ def gen_regex(ctx, rng, kind):
             flags.append(True)
         cells.append(text + "zz")  # prefix semantics: still accepted unless anchored
         flags.append(True)
+        if kind != "fixed":
+            # line breaks inside a cell: "." matches a carriage return but no line feed; "$" tolerates one final line feed
+            at = rng.randrange(len(text))
+            for m in (text[:at] + "\n" + text[at + 1:], text[:at] + "\r" + text[at + 1:], text + "\n", text + "\n\n",
+                      text[:at] + "\n" + text[at:]):
+                if m.strip() == m or m.startswith(text):
+                    cells.append(m)
+                    flags.append(True)
         cells.append("zz" + text)
         flags.append(True)
     length = str(max([len(c) for c in cells] + [1]) + 1) if kind == "fixed" else ""
